@@ -23,6 +23,7 @@ func c19Canaries() []core.Canary {
 
 import (
 	"bytes"
+	"sort"
 	"time"
 )
 
@@ -47,12 +48,23 @@ func (this *DateTimeHelper) zzCanaryStamp(time int64) string {
 func zzCanaryClock(ms int64) string {
 	return time.UnixMilli(ms).UTC().Format("030405")
 }
-`, Expect: []core.CanaryExpect{{Rule: "C19.fields", Sub: "zzCanaryStamp"}, {Rule: "C19.layouts", Sub: "zzCanaryClock"}}}}
+
+// an instant that is exactly a start goes to the entry before it
+func zzCanaryDayIndex(starts []int64, t int64) int {
+	n := sort.Search(len(starts), func(i int) bool { return starts[i] >= t })
+	if n == 0 {
+		return 0
+	}
+	return n - 1
+}
+`, Expect: []core.CanaryExpect{{Rule: "C19.fields", Sub: "zzCanaryStamp"}, {Rule: "C19.layouts", Sub: "zzCanaryClock"}, {Rule: "C19.search", Sub: "zzCanaryDayIndex"}}}}
 }
 
 func runC19(p *core.Program, r *core.Report) {
 	r.Explanation = "Table- and shape-level necessary conditions of calendar agreement (util/dateutil). Tables: month lengths are 31,28,31,30,31,30,31,31,30,31,30,31; the leap-year predicate, interpreted for all 400 residues, is the Gregorian rule; the base instant is 2000-01-01 00:00:00; the weekday table starts at Saturday's index; MILLIS_PER_* have their stated values; month lengths are never used without the leap correction. Units: each unit function is (t - BASE)/STEP with STEP the constant its name states. Fields: an interval analysis of every formatter's decomposition chain (day remainder -> hour -> minute -> second -> millisecond) bounds each field and requires the padding helper / format verb to be as wide as the field's maximum (hh<=23, mm,ss<=59 -> 2 digits; millis<=999 -> 3 digits). Format/parse: DateFormat.format and Parse handle the same letter set with equal widths, and both treat a literal separator as one rune."
 	r.NotDecided = []string{"agreement with the standard library for each instant (numeric)", "weekday names", "pattern round trip beyond per-letter width agreement"}
+	r.Rule("C19.search", "a day is found in the table of day starts as the entry before the first start beyond the instant (strict predicate when the answer is stepped back by one)", 0)
+	floorSearchRule(p, r, "C19.search", []string{"util/dateutil"})
 	r.Rule("C19.tables", "month lengths, Gregorian leap rule (400 residues), base instant, weekday start, MILLIS_PER_* values, leap correction wherever month lengths are used", 7)
 	r.Rule("C19.units", "unit functions are (t-BASE)/STEP with the STEP their name states", 5)
 	r.Rule("C19.wrappers", "the exported package functions hand the instant they were given to the helper unchanged (or the current clock reading)", 10)
